@@ -76,3 +76,74 @@ def generate(ck, family, n, seed=None):
     p = ck.drive(["gen", "-family", family, "-n", str(n), "-seed", str(ck.seed if seed is None else seed)], timeout=300)
     progs = [json.loads(l) for l in p.stdout.splitlines() if l.strip()]
     return progs
+
+
+VM_CFG = """SPECIFICATION Spec
+CONSTANTS
+  MaxStringLen = %d
+  MaxBytesLen = %d
+INVARIANTS FrameDiscipline CellsWellFormed
+"""
+
+
+def vm_validate(ck, progs, njobs=10, maxstr=1000000, maxbytes=1000000, tag="vm", max_steps=3000, nproc=8):
+    """Trace validation at bytecode level: record one event per dispatched instruction of the real VM for
+    every program and check with TLC that the recording is a behaviour of TengoVM.tla (and that the
+    machine's final globals are the real ones).  Returns {id: verdict}; verdict['v'] is one of
+    accepted / excluded / rejected / skipped, with details for rejected runs."""
+    import semcmp
+    cases = [{"id": p["id"], "src": p["src"], "inputs": p.get("inputs", []), "max_steps": max_steps,
+              "mods": [{"name": m["name"], "src": m["src"]} for m in p.get("mods", [])]} for p in progs]
+    res = vlib.run_cases(ck, "vmtrace", cases, nproc=nproc)
+    out, runs = {}, []
+    for c in cases:
+        o = res[c["id"]]
+        if o.get("hang") or o.get("died") or o.get("panic"):
+            out[c["id"]] = {"v": "skipped", "why": "driver"}
+        elif "run" not in o:
+            out[c["id"]] = {"v": "skipped", "why": (o.get("outcome") or {}).get("k", "no-run")}
+        else:
+            runs.append(o["run"])
+    if not runs:
+        return out
+    njobs = max(1, min(njobs, (len(runs) + 19) // 20))
+    batches = [runs[i::njobs] for i in range(njobs)]
+    cfg = VM_CFG % (maxstr, maxbytes)
+
+    def job(ib):
+        i, batch = ib
+        r = ck.tlc("TengoVM", cfg, files={"vmruns.ndjson": vlib.ndjson(batch), "progs.ndjson": ""}, workers=1, name="%s%d" % (tag, i),
+                   timeout=2400, xmx="4g", xss="256m")
+        if r.violated:
+            raise vlib.Infra("TengoVM machine invariant %s violated:\n%s" % (r.violated, r.stdout[-3000:]))
+        return r
+    best = {}
+    for r in vlib.parallel(job, list(enumerate(batches)), nproc=njobs):
+        for o in r.tagged("VMTRACE"):
+            b = best.get(o["id"])
+            if b is None or (o["ok"] and not b["ok"]) or (o["ok"] == b["ok"] and o["consumed"] > b["consumed"]):
+                best[o["id"]] = o
+    for run in runs:
+        pid = run["id"]
+        o = best.get(pid)
+        if o is None:
+            raise vlib.Infra("TengoVM produced no verdict for program %s" % pid)
+        real = res[pid]
+        if not o["ok"]:
+            out[pid] = {"v": "rejected", "why": o["verdict"].get("why"), "at": o["verdict"].get("at"), "n": o["n"],
+                        "event": run["ev"][min(o["verdict"].get("at", 1), len(run["ev"])) - 1]}
+        elif o["status"] == "excluded":
+            out[pid] = {"v": "excluded", "why": o["why"]}
+        elif o["status"] == "done":
+            want = [semcmp.canon(x) for x in real["g_real"]]
+            got = [semcmp.canon(x) for x in o["globals"]][:len(want)]
+            if any(semcmp.has_unrep(x) for x in real["g_real"]):
+                out[pid] = {"v": "accepted", "n": o["n"], "globals": "unrepresentable"}
+            elif want != got:
+                out[pid] = {"v": "rejected", "why": "final globals differ: machine %s, real %s" % (
+                    [semcmp.show(x) for x in got], [semcmp.show(x) for x in want]), "at": o["n"], "n": o["n"], "event": {}}
+            else:
+                out[pid] = {"v": "accepted", "n": o["n"]}
+        else:
+            out[pid] = {"v": "accepted", "n": o["n"], "end": o["why"]}
+    return out
